@@ -97,6 +97,14 @@ func Resume(
 				// file most-likely contains the index and we cannot know where it starts, therefore
 				// can't resume.
 				return errors.New("corrupt CARv2 header; cannot resume from file")
+			} else if headerInFile.IndexOffset == 0 {
+				// Finalize writes the index offset last. Without it the header may have been only
+				// partially written, in which case a truncated CARv1 size would make us cut into the
+				// payload below: do not trust it if more bytes follow the claimed payload.
+				var probe [1]byte
+				if n, _ := rw.ReadAt(probe[:], int64(headerInFile.DataOffset+headerInFile.DataSize)); n > 0 {
+					return errors.New("corrupt CARv2 header; cannot resume from file")
+				}
 			}
 		}
 
